@@ -233,6 +233,14 @@ func genC06(r *rand.Rand, tier string, idx int) *World {
 		ps.NoLastTerm = chance(r, 0.15) // the kubelet no longer reports the previous run of the container
 		if ps.Kind == "cannotstart" {
 			ps.Waiting = pick(r, "ImagePullBackOff", "ErrImagePull", "CreateContainerConfigError", "PostStartHookError", "PodInitializing", "CrashLoopBackOff")
+			switch r.IntN(5) {
+			case 0:
+				// only a later container is stuck; the first one waits for an ordinary reason
+				ps.FirstWaiting = pick(r, "ContainerCreating", "CrashLoopBackOff", "PodInitializing")
+			case 1:
+				// an init container is stuck, the others wait for it
+				ps.InitWaiting = pick(r, "ImagePullBackOff", "CreateContainerConfigError", "PodInitializing")
+			}
 		}
 		if side && chance(r, 0.6) {
 			// the less restarted container restarted more recently (or the other way round)
@@ -545,8 +553,12 @@ func bodyC15(s *Sim) {
 			s.settleAll()
 		}
 		if e := s.Store.GetEDS(def.NS, def.Name); e != nil && e.Spec.Strategy.Canary != nil && e.Spec.Strategy.Canary.Replicas != nil && e.Spec.Strategy.Canary.Replicas.Type == intstr.Int && s.rngEnv.IntN(3) == 0 {
-			// the user asks for one more canary node: the selection runs again
+			// the user asks for one more canary node: the selection runs again; or for one less:
+			// the nodes already selected stay, none may be added
 			n := e.Spec.Strategy.Canary.Replicas.IntValue() + 1
+			if n > 2 && s.rngEnv.IntN(3) == 0 {
+				n -= 2
+			}
 			e.Spec.Strategy.Canary.Replicas = intOrStr(fmt.Sprint(n))
 			s.Store.ForceUpdate(e)
 			s.logf("env user.canary-replicas %d", n)
